@@ -21,6 +21,23 @@ def main():
           emit.write_if_changed(os.path.join(gen, "Tables.v"), tabs),
           emit.write_if_changed(os.path.join(gen, "Unfold.v"), emit.emit_unfold(ir))]
     os.makedirs(os.path.join(ROOT, "build"), exist_ok=True)
+    # T3 in its own process (it re-wires the object backend)
+    import subprocess
+    objapi = os.path.join(ROOT, "build", "objapi.json")
+    p3 = subprocess.run([sys.executable, "-m", "tools.vtrace.t3run", objapi], cwd=ROOT, capture_output=True, text=True, timeout=600)
+    if p3.returncode != 0:
+        print(p3.stdout[-2000:], p3.stderr[-4000:])
+        raise RuntimeError("T3 (object API symbolic execution) failed")
+    from tools.vtrace import emit_obj
+    recs = json.load(open(objapi))
+    aborted = [r for fam in recs.values() for r in fam if r["out"].get("kind") == "abort"]
+    if aborted:
+        raise RuntimeError(f"T3: {len(aborted)} API calls aborted on symbolic values, e.g. {aborted[0]}")
+    api_v, names_v, bin_v = emit_obj.emit(recs, ir)
+    ch.append(emit.write_if_changed(os.path.join(gen, "ObjApiBin.v"), bin_v))
+    ch.append(emit.write_if_changed(os.path.join(gen, "ObjApi.v"), api_v))
+    ch.append(emit.write_if_changed(os.path.join(gen, "ObjNames.v"), names_v))
+    t3counts = {k: len(v) for k, v in recs.items()}
     emit.write_if_changed(os.path.join(ROOT, "build", "ir.json"), json.dumps(ir))
     from tools.vtrace import validate
     seed = int(os.environ.get("VERIF_SEED", "0") or 0)
@@ -31,7 +48,7 @@ def main():
         sys.exit(4)
     print(json.dumps({"t1_validation_evaluations": val["evaluations"], "strata": val["strata"]}))
     print(json.dumps({"functions": len(ir["functions"]), "entries": sum(len(t["entries"]) for t in ir["tables"].values()),
-                      "audited": ir["audited"], "changed": ch, "wall_s": round(time.time() - t0, 2)}))
+                      "audited": ir["audited"], "t3_records": t3counts, "changed": ch, "wall_s": round(time.time() - t0, 2)}))
 
 
 if __name__ == "__main__":
